@@ -39,7 +39,7 @@ def gen(rng, tier):
     for _ in range(rng.randint(1, 12)):
         r = rng.random()
         if r < 0.55:
-            ops.append("L:" + gl.hx("%c%d-%s" % (65 + n % 26, n, "x" * rng.choice([0, 3, 30]))))
+            ops.append("L:" + gl.hx(rng.choice("FSX") if rng.random() < 0.1 else "%c%d-%s" % (65 + n % 26, n, "x" * rng.choice([0, 3, 30]))))   # (a line that is just F or S: once the content of control messages)
             n += 1
         elif r < 0.7:
             ops.append("F")
@@ -59,7 +59,7 @@ def gen(rng, tier):
         # write out what was accepted in between
         ops += ["H", "SN"]
         for _ in range(rng.randint(1, 3)):
-            ops.append("L:" + gl.hx("%c%d-%s" % (65 + n % 26, n, "x" * rng.choice([0, 3, 30]))))
+            ops.append("L:" + gl.hx(rng.choice("FSX") if rng.random() < 0.1 else "%c%d-%s" % (65 + n % 26, n, "x" * rng.choice([0, 3, 30]))))   # (a line that is just F or S: once the content of control messages)
             n += 1
     if rng.random() < 0.5:
         ops += ["H", "SN"]
